@@ -19,21 +19,22 @@
                     instance's last command exited (the last ECmdExit of that instance).
    mon_C09 is exactly the conjunction of the four (C09_monitor_split).
 
-   WHAT IS PROVED
+   WHAT IS PROVED (hardened model: instance creation is staged on one creating thread, probes only after the
+   first launch)
    * (a2) and (c): for ALL accepted histories, no window hypothesis, no hypothesis on the configuration.
-   * (a1) and (b): FALSE of the model without hypotheses, also outside all known windows (theorems C09_refuted, C09_refuted_stale_stop, C09_refuted_creation, C09_refuted_nopending):
-     the model lets a stop execution write Terminating at any time after its check (also a stop caused by a
-     fatal readiness probe, which raises no window flag) and does not tie instance creation / the initial
-     Pending write to a spawning context.  They are proved for the histories that (1) stay out of the
-     duplicate-instance window w_dup (F25) and (2) satisfy the decidable assumption monitor `asm`
-     (C09_assumptions):
+   * (a1) and (b): still FALSE of the model without hypotheses, outside all known windows
+     (C09_refuted_stale_stop, C09_refuted_start_before_run).  They are proved for configurations with unique
+     process names (wf_confs) and histories that (1) stay out of the duplicate-instance window w_dup (F25) and
+     (2) satisfy the decidable assumption monitor `asm` (C09_assumptions), which now has two clauses:
        - Terminating is only written over a running status while a command of that instance is alive and
          not by the stopped-while-Pending path (i.e. the stop's check-then-act gap was not hit: this
          excludes the windows F26 late, F20/F21 commit, F37 sdlag, F38 zombie, F32 stale as far as status
-         writes are concerned, and the internal stop of a not yet launched process);
-       - an instance created outside StartProcess/RestartProcess (i.e. by Run) is the first instance of a
-         name that is not disabled;
-       - the goroutine of an instance begins only after Pending was written for it. *)
+         writes are concerned, and a stop execution that still holds the id of a finished instance);
+       - Run()'s spawn loop creates only the FIRST instance of a name (no StartProcess of that name
+         finished before Run reached it).
+     The former clauses "a process created by Run is not disabled" and "the goroutine of an instance begins
+     only after Pending was written" are now invariants of the model (proved: p_staged, TI in Sup/RelC09b.v);
+     the three histories that refuted them are rejected by the hardened model (Examples below). *)
 From Coq Require Import List ZArith NArith Bool.
 From PC.Base Require Import Assoc.
 From PC.Sup Require Import Model Monitors Sim LemC09 RelC09 RelC09b.
@@ -78,6 +79,7 @@ Print Assumptions C09_terminal_not_alive_declarative.
 
 (* (a1) + (b): legal transitions and running status at launch, under the assumption monitor, outside w_dup *)
 Theorem C09_legal_and_launch_partial : forall cs ord evs s,
+  wf_confs cs = true ->
   accept (init cs ord) evs = Some s -> C09_assumptions cs evs = true -> w_dup (final_obs cs evs) = false ->
   holds' cs mon_legal evs = true /\ holds' cs mon_launch evs = true.
 Proof. exact C09_legal_launch_holds. Qed.
@@ -85,6 +87,7 @@ Print Assumptions C09_legal_and_launch_partial.
 
 (* the whole monitor *)
 Theorem C09_main_partial : forall cs ord evs s,
+  wf_confs cs = true ->
   accept (init cs ord) evs = Some s -> C09_assumptions cs evs = true -> w_dup (final_obs cs evs) = false ->
   holds_C09 cs evs = true.
 Proof. exact C09_main_partial_lemma. Qed.
@@ -106,28 +109,25 @@ Definition refute_evs : list (tid * event) :=
   (2, EProbe 1 false true); (2, EStopEnter 1 false); (2, EStopRunning 1); (2, EState 1 STerminating);
   (1, ELaunch true)].
 
-Theorem C09_refuted : exists cs ord evs s,
-  accept (init cs ord) evs = Some s /\ any_window (final_obs cs evs) = false /\ holds_C09 cs evs = false.
-Proof.
-  exists refute_cs, false, refute_evs.
-  destruct (accept (init refute_cs false) refute_evs) as [s|] eqn:E; [|vm_compute in E; discriminate].
-  exists s. repeat split; vm_compute; reflexivity.
-Qed.
-Print Assumptions C09_refuted.
+(* the hardened model rejects it: probes exist only after the first launch *)
+Example C09_probe_before_launch_rejected :
+  accept (init refute_cs false) refute_evs = None /\
+  fst (accept_prefix (init refute_cs false) refute_evs 0) = 10%nat.   (* rejected at the EProbe *)
+Proof. split; vm_compute; reflexivity. Qed.
 
-(* instance creation is not tied to a spawning context in the model: any thread may create an instance of a
-   disabled process and write Pending over Disabled *)
-Theorem C09_refuted_creation : exists cs ord evs s,
-  accept (init cs ord) evs = Some s /\ any_window (final_obs cs evs) = false /\ holds_C09 cs evs = false.
-Proof.
-  exists [(1, conf_disabled)], false, [(0, ENewInst 1 1); (0, EState 1 SPending)].
-  destruct (accept (init [(1, conf_disabled)] false) [(0, ENewInst 1 1); (0, EState 1 SPending)]) as [s|] eqn:E;
-    [|vm_compute in E; discriminate].
-  exists s. repeat split; vm_compute; reflexivity.
-Qed.
-Print Assumptions C09_refuted_creation.
+(* instance creation is tied to a creating thread (Run's spawn loop, StartProcess, RestartProcess): a thread
+   that is in none of them cannot create an instance *)
+Example C09_stray_creation_rejected :
+  accept (init [(1, conf_disabled)] false) [(0, ENewInst 1 1); (0, EState 1 SPending)] = None /\
+  fst (accept_prefix (init [(1, conf_disabled)] false) [(0, ENewInst 1 1); (0, EState 1 SPending)] 0) = 0%nat.
+Proof. split; vm_compute; reflexivity. Qed.
+(* ... and Run() does not create instances of disabled processes *)
+Example C09_run_creates_disabled_rejected :
+  accept (init [(1, conf_disabled)] false) [(0, EApiBegin OpRun); (0, ENewInst 1 1); (0, EState 1 SPending)] = None /\
+  fst (accept_prefix (init [(1, conf_disabled)] false) [(0, EApiBegin OpRun); (0, ENewInst 1 1); (0, EState 1 SPending)] 0) = 1%nat.
+Proof. split; vm_compute; reflexivity. Qed.
 
-(* the model does not force the initial Pending write: a restarted process goes Completed -> Running *)
+(* the initial Pending write cannot be skipped any more: registration requires it *)
 Definition nopending_evs : list (tid * event) :=
  [(0, EApiBegin OpRun); (0, ENewInst 1 1); (0, EState 1 SPending); (0, ERegAdd 1 1); (0, ESpawn 1 1); (0, ERunSpawned);
   (1, EBegin 1); (1, ERunChecked false); (1, EStarted); (1, EState 1 SRunning); (1, ELaunch true);
@@ -137,15 +137,12 @@ Definition nopending_evs : list (tid * event) :=
   (3, EApiBegin (OpStart 1)); (3, ERegGet 1 None); (3, EStartChecked 1 false); (3, ENewInst 2 1); (3, ERegAdd 2 1);
   (3, ESpawn 2 1); (3, EApiReturn true);
   (4, EBegin 2); (4, ERunChecked false); (4, EStarted); (4, EState 2 SRunning)].
-Theorem C09_refuted_nopending : exists cs ord evs s,
-  accept (init cs ord) evs = Some s /\ any_window (final_obs cs evs) = false /\ holds_C09 cs evs = false.
-Proof.
-  exists [(1, conf_plain)], false, nopending_evs.
-  destruct (accept (init [(1, conf_plain)] false) nopending_evs) as [s|] eqn:E; [|vm_compute in E; discriminate].
-  exists s. repeat split; vm_compute; reflexivity.
-Qed.
-Print Assumptions C09_refuted_nopending.
+Example C09_nopending_rejected :
+  accept (init [(1, conf_plain)] false) nopending_evs = None /\
+  fst (accept_prefix (init [(1, conf_plain)] false) nopending_evs 0) = 30%nat.   (* rejected at (3, ERegAdd 2 1) *)
+Proof. split; vm_compute; reflexivity. Qed.
 
+(* ---- the statement without hypotheses is still false of the model, outside every known window ------------ *)
 (* a stop execution keeps the instance it looked up: the old instance finishes, a successor of the same name
    is started and reports Running, the stale stop reads the SHARED status, writes Terminating over it and the
    successor launches under Terminating.  Only external stops, orderly creation, no window flag. *)
@@ -170,6 +167,25 @@ Proof.
 Qed.
 Print Assumptions C09_refuted_stale_stop.
 
+(* StartProcess(n) runs to completion before Run()'s spawn loop reaches n: Run then writes Pending over
+   Completed for an instance that was not created by an explicit start request *)
+Definition start_before_run_evs : list (tid * event) :=
+ [(3, EApiBegin (OpStart 1)); (3, ERegGet 1 None); (3, EStartChecked 1 false); (3, ENewInst 1 1); (3, EState 1 SPending);
+  (3, ERegAdd 1 1); (3, ESpawn 1 1); (3, EApiReturn true);
+  (4, EBegin 1); (4, ERunChecked false); (4, EStarted); (4, EState 1 SRunning); (4, ELaunch true);
+  (9, ECmdExit 1 0%Z); (4, EWaitReturn 0%Z); (4, EExitCode 0%Z); (4, ERestartDecision false);
+  (4, EProcEnd 1 SCompleted); (4, EState 1 SCompleted); (4, EProcEnded 1 SCompleted); (4, ERunReturned 0%Z);
+  (4, EDoneAdd 1); (4, EInstDone); (4, EInstExit); (4, ERegDel 1); (4, EInstGone);
+  (0, EApiBegin OpRun); (0, ENewInst 2 1); (0, EState 2 SPending)].
+Theorem C09_refuted_start_before_run : exists cs ord evs s,
+  wf_confs cs = true /\ accept (init cs ord) evs = Some s /\ any_window (final_obs cs evs) = false /\ holds_C09 cs evs = false.
+Proof.
+  exists [(1, conf_plain)], false, start_before_run_evs.
+  destruct (accept (init [(1, conf_plain)] false) start_before_run_evs) as [s|] eqn:E; [|vm_compute in E; discriminate].
+  exists s. repeat split; vm_compute; reflexivity.
+Qed.
+Print Assumptions C09_refuted_start_before_run.
+
 (* ---- non-vacuity: a 45-event accepted history (launch, failure, back-off, relaunch, API stop of the running
    command, completion, Run returns) that satisfies every hypothesis of C09_main_partial ------------------- *)
 Definition example_cs : amap pconf := [(1, conf_retry)].
@@ -185,13 +201,13 @@ Definition example_evs : list (tid * event) :=
   (1, EDoneAdd 1); (1, EInstDone); (1, EInstExit); (1, ERegDel 1); (1, EInstGone); (0, ERunReturn 0%Z); (0, EApiReturn true)].
 
 Example C09_nonvacuous :
-  length example_evs = 45%nat /\
+  length example_evs = 45%nat /\ wf_confs example_cs = true /\
   (exists s, accept (init example_cs false) example_evs = Some s) /\
   C09_assumptions example_cs example_evs = true /\
   w_dup (final_obs example_cs example_evs) = false /\
   holds_C09 example_cs example_evs = true.
 Proof.
-  split; [reflexivity|]. split.
+  split; [reflexivity|]. split; [reflexivity|]. split.
   - destruct (accept (init example_cs false) example_evs) as [s|] eqn:E; [eauto|vm_compute in E; discriminate].
   - repeat split; vm_compute; reflexivity.
 Qed.
